@@ -16,7 +16,10 @@
 (*           tags;  indices [tag, type, idx]  the returned 'indices'           *)
 (*   hasref, ref   the defect-free reference (vacancy calculator)              *)
 (* Output: <<"FAIL", case, "clause">> (setting level), "clause@s<j>" (state j), *)
-(* "clause@t<j>" (transition j); INFO lines with measured facts.               *)
+(* "clause@t<j>" (transition j), "clause@t<j>i" / "clause@t<j>f" (the recorded  *)
+(* mapping of its initial / final endpoint); INFO lines with measured facts.    *)
+(* NOTE: TLC wraps printed tuples longer than 80 characters, and a wrapped      *)
+(* line is not read back: clause names stay below 52 characters.               *)
 EXTENDS SetupW, Json, IOUtils
 
 Cases == JsonDeserialize(IOEnv.CASE_FILE)
@@ -37,14 +40,13 @@ StateClauses(q, j) ==
   IN <<
     <<tag("state_tag_names_its_defects"), wf>>,
     <<tag("state_supercell_is_consistent"), Len(s.occ) = Len(q.sites) /\ Sane(st, NumSpecies(q))>>,
-    <<tag("named_positions_are_sites_of_the_diffusing_sublattice"), wf => NamedOnSublattice(q, s.defs)>>,
-    <<tag("state_contains_exactly_the_named_defects_at_the_named_positions"),
-        fits => s.occ = ExpectedOcc(q, s.defs)>>
+    <<tag("named_positions_are_on_the_diffusing_sublattice"), wf => NamedOnSublattice(q, s.defs)>>,
+    <<tag("state_has_exactly_the_named_defects_at_named_sites"), fits => s.occ = ExpectedOcc(q, s.defs)>>
   >>
 
-\* ---- one recorded (state, operation, mapping) entry e for endpoint ep of transition j
+\* ---- one recorded (state, operation, mapping) entry e for endpoint ep of transition j (which = "i" / "f")
 EntryClauses(q, G, ix, j, which, e, ep) ==
-  LET tag(n) == n \o "_" \o which \o "@t" \o ToString(j)
+  LET tag(n) == n \o "@t" \o ToString(j) \o which
       known == ~e.none /\ e.st \in DOMAIN q.states
       s == q.states[e.st]
       st == [occ |-> s.occ, order |-> s.order]
@@ -53,7 +55,7 @@ EntryClauses(q, G, ix, j, which, e, ep) ==
     <<tag("recorded_mapping_names_a_state_supercell"), e.none \/ known>>,
     <<tag("recorded_operation_is_a_symmetry_of_the_supercell"),
         known => (OpIsGeometric(q, e.op) /\ <<e.op.rot, e.op.t>> \in G)>>,
-    <<tag("recorded_mapping_transforms_the_relaxed_state_into_the_endpoint"),
+    <<tag("mapping_transforms_relaxed_state_into_endpoint"),
         (known /\ sane) => MappingTransforms(e.op, st, e.map, ep)>>,
     <<tag("unmapped_endpoint_has_no_equivalent_relaxed_state"),
         (e.none /\ sane) =>
@@ -81,14 +83,14 @@ TransClauses(q, G, ix, j) ==
       one == paired /\ Cardinality(mv) = 1
       ci == CHOOSE x \in mv : TRUE
       entries == IF t.ntm = 2
-                 THEN EntryClauses(q, G, ix, j, "initial", t.tm[1], t.a) \o EntryClauses(q, G, ix, j, "final", t.tm[2], t.b)
+                 THEN EntryClauses(q, G, ix, j, "i", t.tm[1], t.a) \o EntryClauses(q, G, ix, j, "f", t.tm[2], t.b)
                  ELSE <<>>
   IN <<
     <<tag("transition_tag_names_its_end_states"), wf>>,
     <<tag("endpoint_supercells_are_consistent"), sane>>,
-    <<tag("named_positions_are_sites_of_the_diffusing_sublattice"), wf => NamedOnSublattice(q, AllPoints(t.typ, t.ini, t.fin))>>,
-    <<tag("initial_endpoint_contains_exactly_the_named_defects"), fits => t.a.occ = ExpectedOcc(q, t.ini)>>,
-    <<tag("final_endpoint_contains_exactly_the_named_defects"), fits => t.b.occ = ExpectedOcc(q, fin)>>,
+    <<tag("named_positions_are_on_the_diffusing_sublattice"), wf => NamedOnSublattice(q, AllPoints(t.typ, t.ini, t.fin))>>,
+    <<tag("initial_endpoint_has_exactly_the_named_defects"), fits => t.a.occ = ExpectedOcc(q, t.ini)>>,
+    <<tag("final_endpoint_has_exactly_the_named_defects"), fits => t.b.occ = ExpectedOcc(q, fin)>>,
     <<tag("endpoints_differ_by_a_single_moving_atom"), fits => one>>,
     <<tag("moving_atom_is_the_jumping_species"), (fits /\ one) => ci[1] = MovingSpecies(q, t.typ)>>,
     <<tag("moving_atom_displacement_matches_the_jump"),
@@ -97,13 +99,23 @@ TransClauses(q, G, ix, j) ==
   >> \o entries
 
 \* ---- the setting as a whole
+\* records whose named defects are distinct sites of the supercell (the content clauses are demanded of these)
+FitStates(q) == {j \in DOMAIN q.states : WellFormedState(q, q.states[j].defs) /\ DistinctInSupercell(q, q.states[j].defs)}
+FitTrans(q) == {j \in DOMAIN q.trans :
+                  LET t == q.trans[j] IN
+                  /\ WellFormedTransition(t.typ, t.ini, t.fin)
+                  /\ DistinctInSupercell(q, AllPoints(t.typ, t.ini, t.fin))}
+
+\* too small: (interstitial) the two ends of a representative jump are one and the same site of the supercell;
+\* (vacancy) two pair states of the kinetic range are one and the same configuration of the supercell.  Every state
+\* or transition record of a vacancy calculator is made of pair states of the kinetic range, so a record whose
+\* defects coincide is covered by the second case.
 TooSmall(q) ==
-  \/ \E j \in DOMAIN q.states : WellFormedState(q, q.states[j].defs) /\ ~DistinctInSupercell(q, q.states[j].defs)
-  \/ \E j \in DOMAIN q.trans :
-        LET t == q.trans[j] IN
-        /\ WellFormedTransition(t.typ, t.ini, t.fin)
-        /\ ~DistinctInSupercell(q, AllPoints(t.typ, t.ini, t.fin))
-  \/ (q.kind = "vacancy" /\ KineticAliased(q, q.kin))
+  IF q.kind = "interstitial"
+  THEN \E j \in DOMAIN q.trans :
+          LET t == q.trans[j] IN
+          WellFormedTransition(t.typ, t.ini, t.fin) /\ ~DistinctInSupercell(q, AllPoints(t.typ, t.ini, t.fin))
+  ELSE KineticAliased(q, q.kin)
 
 SettingClauses(q) ==
   LET reps(T) == {q.classes[n].rep : n \in {m \in DOMAIN q.classes : (q.classes[m].type \in StateTypes) = T}}
@@ -139,6 +151,8 @@ Next == /\ k < Len(Cases)
         /\ LET q == Cases[k'] cl == CaseEval(q) IN
              /\ \A j \in DOMAIN cl : cl[j][2] \/ PrintT(<<"FAIL", k', cl[j][1]>>)
              /\ PrintT(<<"INFO", k', "toosmall", TooSmall(q)>>)
+             /\ PrintT(<<"INFO", k', "aliased", q.kind = "vacancy" /\ KineticAliasedAtAll(q, q.kin)>>)
+             /\ PrintT(<<"INFO", k', "fits", Cardinality(FitStates(q)) + Cardinality(FitTrans(q))>>)
              /\ PrintT(<<"INFO", k', "clauses", Len(cl)>>)
         /\ (k' = Len(Cases) => PrintT(<<"DONE", k'>>))
 =============================================================================
